@@ -42,7 +42,10 @@ for r in (1, 2, 3, 4):
         continue
     print('**Round %d** (%d changes)' % (r, len(rs)))
     print()
-    print('| seed | breaks | confirmed | first evaluation%s | final evaluation (checks run: own + earlier catchers) | change | needs |' % (' (blind, frozen checks)' if r > 1 else ''))
+    if r == 4:
+        print('(first evaluation of round 4: only the check of the targeted property was run)')
+        print()
+    print('| seed | breaks | confirmed | first evaluation%s | final evaluation (check of the targeted property; further checks only where it misses) | change | needs |' % (' (blind, frozen checks)' if r > 1 else ''))
     print('|---|---|---|---|---|---|---|')
     for x in rs:
         first = fmt(x['first'])
